@@ -276,6 +276,18 @@ def plan_for(prop, tier, seed):
     builder_fams = [fam("builder_exh", shards=10 if T else 6, sample=1 if T else 6), fam("builder_rand", shards=3),
                     fam("builder_big", shards=4)]
     P = dict(design=[], scenarios=[], families=[], report={prop}, nontrivial_keys=[], rule="", exhaustive=T)
+
+    def plain(focus=None, streams=False, runs=True):
+        """the same families against fn_graph built WITHOUT `interruptible` (its default features): the schedulers of that
+        build are separate code (no InterruptibleStream around the ready channel, other closure signatures)"""
+        out = []
+        kw = dict(focus=focus) if focus else {}
+        if runs:
+            out += [fam("runs_exh", shards=8 if T else 3, sample=8 if T else 40, plain=True, tag="p", **kw),
+                    fam("runs_rand", shards=2, plain=True, tag="p", **kw), fam("wide", shards=1, plain=True, tag="p", **kw)]
+        if streams:
+            out += [fam("stream_exh", shards=4 if T else 2, sample=1 if T else 6, plain=True, tag="p"), fam("stream_rand", shards=1, plain=True, tag="p")]
+        return out
     if prop == "C01":
         P["design"] = run_sweep(tier, lambda k: k["api"] in ("for_each", "try_for_each")) + stream_sweep(tier)[:3] + builder_sweep(tier)[:1]
         P["scenarios"] = scenario_jobs(tier, lambda k: k["api"] in ("for_each", "try_for_each"))
@@ -395,6 +407,23 @@ def plan_for(prop, tier, seed):
         P["rule"] = "two overlapping runs on one graph; non-trivial = runs re-executed alone on a fresh graph and compared event by event"
     else:
         raise SystemExit(f"unknown property {prop}")
+    # ---- the build of fn_graph without `interruptible`
+    if prop == "C01":
+        P["families"] += plain("conflict", streams=True)
+    elif prop in ("C02", "C03"):
+        P["families"] += plain(None, streams=True)
+    elif prop == "C04":
+        P["families"] += plain(None) + [fam("budget_exh", shards=4 if T else 2, sample=2 if T else 16, plain=True, tag="p")]
+    elif prop == "C05":
+        P["families"] += plain(runs=False, streams=True)
+    elif prop in ("C06", "C07", "C10"):
+        P["families"] += plain({"C06": "eager", "C07": "try", "C10": "limit"}[prop])
+    elif prop == "C09":
+        P["families"] += plain(None)
+    elif prop == "C15":
+        P["families"] += [fam("multi_seq", shards=2, count=5000 if T else 500, plain=True, tag="p")]
+    elif prop == "C20":
+        P["families"] += [fam("multi_overlap", shards=2, count=5000 if T else 500, plain=True, tag="p")]
     P["exhaustive"] = bool(T and all(f.get("sample", 1) == 1 for f in P["families"] if f["family"].endswith("_exh")))
     # hook-level conformance (impl -> design model): a rotating selection of option sets per property
     off = int(prop[1:]) * 7 + seed
